@@ -30,7 +30,6 @@ NOT_APPLICABLE = {
 }
 PENDING = {
     'C01': 'not yet claimed: value-level encoder and decoder are under contract (see C03/C02); the message-level round-trip lemma is not built yet',
-    'C09': 'not yet claimed: IppAttributes::to_bytes contract not built yet',
 }
 
 LEVEL_TEXT = {
@@ -38,9 +37,10 @@ LEVEL_TEXT = {
            'drive loops have NO precondition, so every callee precondition (Buf::get_*/advance, slice ranges, Vec::remove, arithmetic '
            'overflow) is proved for every tag byte and every length; the drive loops terminate (decreases = bytes left). Kani '
            'discharges the enum-table axioms and the two reader primitives Verus cannot reach.',
-    'C03': 'Deductive proof that IppValue::to_tag equals the RFC 8010 tag table and IppValue::to_bytes equals the RFC-derived '
-           'spec_val_enc for every value (sets with per-element tags, nested collections, all scalar layouts), and that the header '
-           'encoder equals spec_header_enc.',
+    'C03': 'Deductive proof that IppValue::to_tag equals the RFC 8010 tag table, IppValue::to_bytes equals the RFC-derived '
+           'spec_val_enc for every value (sets with per-element tags, nested collections, all scalar layouts), the header encoder equals '
+           'spec_header_enc, each attribute is framed as tag/name-length/name/value, and the attribute section is: operation tag, first '
+           'operation group, further groups each behind its own delimiter with every attribute exactly once, one end tag last.',
     'C04': 'Deductive proof that the real parser refines an abstract machine written from RFC 8010 §3.1: every ParserState method equals '
            'the machine step on legal tokens (delimiter: close attribute and group, open group; named value: new attribute; nameless '
            'value: additional value; begCollection/endCollection with members paired by member NAME, several values = ordered set; '
@@ -55,6 +55,10 @@ LEVEL_TEXT = {
     'C07': 'Same obligations read as: Ok implies the whole scanned section was available before end-of-data/fault; lemma '
            'lemma_scan_prefix_none (proved) shows no proper prefix of an accepted section is accepted; Kani proves the I/O error '
            'kind survives the conversion into the parse error.',
+    'C09': 'Deductive proof on the real IppAttributes::to_bytes: the output starts with the operation-attributes tag; the first operation '
+           'group\'s attributes follow, each exactly once, sorted by the RFC 8011 §4.1.4-4.1.5 rank (charset, natural-language, '
+           'printer-uri|job-uri, job-id, then the rest) — for whichever order the hash map iterates; lemma_header_attrs_ok proves that the '
+           'encoder\'s list of leading attributes is exactly that RFC list in that order; the constructors put charset and language first.',
     'C10': 'Deductive proof that nine of the ten into_ipp_request bodies and both raw constructors produce a request whose header and '
            'whole abstract attribute view (group sequence, name -> value maps) EQUAL the RFC 8011 request model of their arguments — '
            'operation code literal from the RFC table, version 1.1, request-id 1, charset/language/printer-uri, job-id integer, '
